@@ -13,6 +13,29 @@ PROOF_NOTE = ("Trusted: Lean 4.33 kernel + axioms propext/Classical.choice/Quot.
               "tables/constants (Strophe/Gen). ")
 
 CLAIMED = {
+    "C13": dict(
+        engine="conn", design="5.13",
+        technique="Lean 4 invariant proofs over every operation history of the connection-machine model (Model/Conn.lean: event loop, handlers, timed handlers, negotiation, SM, API calls), tied to conn.c/auth.c/event.c/handler.c by differential execution of the same sessions on the real library (scripted socket/TLS, real parser) + model-free transcript monitors",
+        text=("For EVERY history of API calls, loop iterations, clock advances, parser events and transport outcomes from a fresh "
+              "connection object: one_disconnect_per_attempt (at most one DISCONNECT per accepted attempt), ended_iff_notified "
+              "(state disconnected <-> exactly one DISCONNECT delivered for the attempt), connect_before_disconnect (never CONNECT "
+              "after DISCONNECT), events_belong_to_attempts, predicates_partition + predicates_agree (exactly one of "
+              "connecting/connected/disconnected, agreeing with the notifications), timed_not_early / timed_fires_when_due / "
+              "timed_only_connected / timed_uids_nodup (deadlines given up when and not before they pass; pin_deadlines pins "
+              "5 s / 15 s / 2 s to the constants extracted from the source), flags_offline_only + the complete 256-word "
+              "set_flags table (C02), connect_refused_unless_disconnected, stream_error_stored + disconnect_reports_stream_error. "
+              "Five defects found by the proofs/monitors and repaired (D45-D49)."),
+        note=PROOF_NOTE + "PARTIAL: the TCP connect timeout per address and the resolver are the subject of C14; the model's transport, TLS handshake result and clock are scripted parameters (any behaviour), the parser is the real one on the implementation side and an event stream obeying H-parser-protocol on the model side (violations are reported by the driver)."),
+    "C01": dict(
+        engine="conn", design="5.1", category="proof",
+        technique="Lean 4: totality of the connection-machine model with explicit crash sites (no_crash: no NULL-dereference site is reachable in any history), fuel sufficiency of the authentication fallback loop, reconnectable/releasable after every history; tied to the real code by differential execution under ASan+UBSan with a per-case leak oracle",
+        text=("no_crash (the model marks every place where the C code would dereference NULL or abort; none is reachable from a "
+              "fresh object by ANY history of server events, chunkings, API calls, clock advances), auth_fuel_enough (the mechanism "
+              "fallback loop terminates: no spin inside one iteration), one_outcome (C13's exactly-one-disconnect), reconnectable "
+              "(after any history a disconnected object accepts connect again), release_disconnects. The memory-safety half of the "
+              "property (invalid access in the real C code) is NOT a theorem: it is checked by running the same adversarial sessions "
+              "on the real code under ASan+UBSan (harness) and is labelled as such."),
+        note=PROOF_NOTE + "PARTIAL: memory safety of the C code itself is established by sanitizer runs over generated sessions (testing, not proof); SCRAM iteration counts are bounded by the generator as the property allows; parser-internal safety is C10's, SASL parsing safety C07's, SM blob C16's."),
     "C07": dict(
         engine="sasl", design="5.7",
         technique="Lean 4 theorems: client SCRAM proof accepted by an RFC 5802 server-side verifier written from the RFC, message grammar, DIGEST-MD5 = RFC 2831, PLAIN = RFC 4616, XEP-0114 handshake, parser robustness; differential correspondence + independent Python RFC 5802/2831 server",
